@@ -46,6 +46,7 @@ _pixman_gradient_walker_init (pixman_gradient_walker_t *walker,
     walker->b_s       = 0.0f;
     walker->b_b       = 0.0f;
     walker->repeat    = repeat;
+    walker->base_x    = 0;
 
     walker->need_reset = TRUE;
 }
@@ -136,8 +137,22 @@ gradient_walker_reset (pixman_gradient_walker_t *walker,
     rg = (right_c->green * (1.0f/257.0f));
     rb = (right_c->blue * (1.0f/257.0f));
     
-    lx = left_x * (1.0f/65536.0f);
-    rx = right_x * (1.0f/65536.0f);
+    /* For the periodic repeat modes the interval is expressed relative to
+     * the start of its period: converting the absolute positions to float
+     * would lose the fraction many periods away from the origin.
+     */
+    if (walker->repeat == PIXMAN_REPEAT_NORMAL ||
+	walker->repeat == PIXMAN_REPEAT_REFLECT)
+    {
+	walker->base_x = pos - x;
+    }
+    else
+    {
+	walker->base_x = 0;
+    }
+
+    lx = (left_x - walker->base_x) * (1.0f/65536.0f);
+    rx = (right_x - walker->base_x) * (1.0f/65536.0f);
     
     if (FLOAT_IS_ZERO (rx - lx) || left_x == INT32_MIN || right_x == INT32_MAX)
     {
@@ -178,7 +193,7 @@ pixman_gradient_walker_pixel_float (pixman_gradient_walker_t *walker,
     if (walker->need_reset || x < walker->left_x || x >= walker->right_x)
 	gradient_walker_reset (walker, x);
 
-    y = x * (1.0f / 65536.0f);
+    y = (x - walker->base_x) * (1.0f / 65536.0f);
 
     f.a = walker->a_s * y + walker->a_b;
     f.r = f.a * (walker->r_s * y + walker->r_b);
@@ -198,7 +213,7 @@ pixman_gradient_walker_pixel_32 (pixman_gradient_walker_t *walker,
     if (walker->need_reset || x < walker->left_x || x >= walker->right_x)
 	gradient_walker_reset (walker, x);
 
-    y = x * (1.0f / 65536.0f);
+    y = (x - walker->base_x) * (1.0f / 65536.0f);
 
     /* Instead of [0...1] for ARGB, we want [0...255],
      * multiply alpha with 255 and the color channels
